@@ -1,5 +1,7 @@
 /* C15.d -- the real log reader on ARBITRARY bytes vs the reference decoder.
  *
+ * (With VP_FIXLEN: the length fields of back-to-back records are fixed,
+ * everything else arbitrary.)
  * VP_N arbitrary bytes (exact-size object) are the file contents from file
  * offset VP_START on (VP_START == 0: a whole small file; VP_START == 32768-k:
  * the reader stands k bytes before the end of the first block, so the bytes
@@ -82,6 +84,15 @@ harness(void) {
   size_t j;
 
   vp_fill(in, VP_N);
+#ifdef VP_FIXLEN
+  /* structured variant: back-to-back physical records whose length fields are
+   * the constant VP_FIXLEN (checksums, types, payloads arbitrary), so that
+   * chains of three and more fragments fit into a query */
+  for (j = 0; j + 7 + VP_FIXLEN <= VP_N; j += 7 + VP_FIXLEN) {
+    in[j + 4] = VP_FIXLEN;
+    in[j + 5] = 0;
+  }
+#endif
 
   vp_ref_dec_init(&vp_dec, in, VP_START, VP_N);
 
